@@ -30,6 +30,7 @@ type Token struct {
 }
 
 type reqState struct {
+	finished bool  // the request function returned (possibly while one of its goroutines is still parked)
 	status  string // "running", "parked", "lockwait", "done"
 	site    string
 	key     string
@@ -53,6 +54,9 @@ type Control struct {
 	reqs    map[string]*reqState
 	owner   map[string]string // lock name ("map" or key name) -> rid holding it
 	Deviate []string
+	// OnDoneWhileParked is called when a request returns while one of its goroutines is parked at a gate
+	// (e.g. the response is sent while the store of its record is still pending).
+	OnDoneWhileParked func(rid, site string)
 	// StartFn launches a request that the schedule has not started yet.
 	StartFn func(rid string)
 	// Blocked records "rid blocked on lock held by rid" observations.
@@ -188,8 +192,15 @@ func (c *Control) park(rid, site, key string) {
 	s.status, s.site, s.key = "parked", site, key
 	s.release = make(chan struct{})
 	ch := s.release
+	var cb func(string, string)
+	if s.finished {
+		cb = c.OnDoneWhileParked // the request already answered, yet one of its goroutines only now gets here
+	}
 	c.cond.Broadcast()
 	c.mu.Unlock()
+	if cb != nil {
+		cb(rid, site)
+	}
 	<-ch
 }
 
@@ -227,11 +238,22 @@ func (c *Control) LockReleasing(rid, name string) {
 // Done marks a request as finished.
 func (c *Control) Done(rid string) {
 	c.mu.Lock()
+	var cb func(string, string)
+	site := ""
 	if s := c.reqs[rid]; s != nil {
-		s.status = "done"
+		s.finished = true
+		if s.status == "parked" {
+			// keep it parked (it is released later); report
+			cb, site = c.OnDoneWhileParked, s.site
+		} else {
+			s.status = "done"
+		}
 	}
 	c.cond.Broadcast()
 	c.mu.Unlock()
+	if cb != nil {
+		cb(rid, site)
+	}
 }
 
 // stable reports, under c.mu, whether request state s cannot change without scheduler action.
@@ -280,6 +302,9 @@ func (c *Control) releaseLocked(rid string) {
 	s := c.reqs[rid]
 	if s != nil && s.status == "parked" {
 		s.status = "running"
+		if s.finished {
+			s.status = "done"
+		}
 		close(s.release)
 	}
 }
@@ -341,7 +366,13 @@ func (c *Control) RunSchedule(tokens []Token) SchedResult {
 			c.mu.Unlock()
 			continue
 		}
-		// Advance t.Rid until it has passed gate (t.Site, t.Key); site "done" = until it has finished.
+		hold := ""
+		if len(t.Site) > 5 && t.Site[:5] == "hold:" {
+			hold = t.Site[5:]
+		}
+		// Advance t.Rid until it has passed gate (t.Site, t.Key); site "done" = until it has finished;
+		// "hold:<gate>" = until it is parked at <gate>, then watch for a while whether the request answers
+		// although it is parked there, then let it go.
 		for steps := 0; steps < 64; steps++ {
 			if !c.waitStable(to) {
 				res.Stuck = true
@@ -364,6 +395,25 @@ func (c *Control) RunSchedule(tokens []Token) SchedResult {
 				break
 			}
 			hit := s.site == t.Site && (t.Key == "" || t.Key == s.key)
+			if hold != "" && s.site == hold {
+				c.mu.Unlock()
+				for w := 0; w < 30; w++ {
+					time.Sleep(10 * time.Millisecond)
+					c.mu.Lock()
+					fin := s.finished
+					c.mu.Unlock()
+					if fin {
+						break
+					}
+				}
+				c.mu.Lock()
+				c.releaseLocked(t.Rid)
+				if s.finished {
+					s.status = "done"
+				}
+				c.mu.Unlock()
+				break
+			}
 			c.releaseLocked(t.Rid)
 			c.mu.Unlock()
 			if hit {
